@@ -328,6 +328,27 @@ func c07Adapter(c *Ctx) {
 				// err == io.EOF
 				return cmpFact(f, token.EQL, rdErr, func(v ssa.Value) bool { return strings.HasSuffix(path(v), "G:EOF") })
 			})
+			if !finished {
+				// the guard may be spread over several tests (switch cases falling through `a && b`): decide per path
+				isFin := func(f Fact) bool {
+					return cmpFact(f, token.NEQ, rdErr, isNilConst) || cmpFact(f, token.EQL, rdErr, func(v ssa.Value) bool { return strings.HasSuffix(path(v), "G:EOF") })
+				}
+				paths, complete := enumPaths(rd, nil, func(i ssa.Instruction) bool { return i == ssa.Instruction(st) }, nil, 400)
+				finished = complete
+				reached := 0
+				for _, pa := range paths {
+					if pa.endWhy != "stop" || infeasible(pa.facts) {
+						continue
+					}
+					reached++
+					if !anyFact(pa.facts, isFin) {
+						finished = false
+					}
+				}
+				if reached == 0 {
+					finished = false
+				}
+			}
 			c.check(finished, "C07.R2", fnName(read)+"/drop-reader-only-when-finished", st.Pos(), "the retained reader is dropped only after it reported an error or EOF",
 				"the retained message reader can be dropped although it has not reported EOF: the unread rest of the message is skipped (bytes lost); facts "+factStrings(facts))
 			continue
